@@ -45,8 +45,14 @@ RULE = (
     "engine used the raw source text, <site>:rejected:<features> when a valid literal was "
     "refused).  number cases = (literal text, site) for ints "
     "up to 10**40 (+/-, 2**53 and 10**k neighbourhoods), e/E/e+ exponents and decimal / "
-    "scientific float spellings, compared by printed digits and by == against exact data "
-    "values (with a neighbouring value as negative control).  json cases = random JSON-like "
+    "scientific float spellings, plus exponent-form integers and floats whose mantissa has "
+    "1..60 significant digits (random digits, runs of 9s, a 5 / 49.. / 50..1 at the positions "
+    "where a double or a 28/34-digit decimal context would round, negative, all of e E e+ E+, "
+    "exponents 0..40), decimal expansions at and next to the exact midpoint of adjacent "
+    "doubles, and probes of the library's integer digit limit (clearly within => exact; "
+    "beyond => only a LiquidError is an acceptable failure); compared by printed digits, "
+    "| json, ==, <=, <, >=, case/when (both positions) against exact data values (with a "
+    "neighbouring value as negative control).  json cases = random JSON-like "
     "values (nested lists/dicts, BMP+astral strings, big ints, finite floats, bools, None) "
     "x {plain, indent, assign, auto-escape + html.unescape}.  distinct = hash of (site, "
     "literal text) / (variant, value); non-trivial = the string has >= 1 character that "
@@ -71,6 +77,11 @@ ASSUMPTIONS = [
     "after a minimal witness has been recorded for (site, outcome), later failures at that "
     "site whose spelling contains all features of the witness are counted under its key "
     "without being minimised again",
+    "digit-limit probes: 'within' means mantissa digits + exponent <= MAX_STR_INT - 1 (sign "
+    "excluded), 'beyond' means >= MAX_STR_INT + 2; the two values in between are only required "
+    "not to fail with a non-Liquid exception or a wrong value; three astronomically large "
+    "exponents are only run when the ordinary beyond-probes were refused (otherwise the "
+    "engine would try to build the number)",
     "integer-class literals with an exponent are keyed int-exp-literal, plain digit strings "
     "int-literal; 'through-float' is assigned by a counterfactual run (the engine gives the "
     "same output when int(float(text)) is written instead)",
@@ -1470,7 +1481,7 @@ def floors(tier: str) -> dict[str, int]:
     return {
         "evaluations": 500_000 if q else 10_000_000,
         "string_evaluations": 450_000 if q else 8_000_000,
-        "number_evaluations": 25_000 if q else 300_000,
+        "number_evaluations": 80_000 if q else 500_000,
         "json_evaluations": 15_000 if q else 1_000_000,
         "distinct_nontrivial": 350_000 if q else 2_000_000,
         # every string site, number site and json variant must have been exercised
@@ -1479,6 +1490,10 @@ def floors(tier: str) -> dict[str, int]:
         "set:codepoints": 280 if q else 1_500,
         "adversarial_strings": 1_464,  # = all strings of length <= 3 over HOSTILE
         "random_strings": 7_000 if q else 600_000,
+        "long_mantissa_literals": 2_000 if q else 5_000,
+        "max:mantissa_digits": 60,
+        "limit_probes_within": 250,
+        "limit_probes_refused_with_LiquidError": 300,
     }
 
 
